@@ -323,7 +323,21 @@ namespace sqf::runtime
                     { // it is not
                         // Lookup inherited node and replace it
                         auto nav = lookup_in_logical(inherited);
-                        replaced.id_parent_inherited = nav.m_index;
+                        // A base whose own chain leads back to this class (class A : A, or A : B after B : A) would make
+                        // every failing lookup below it endless: such a base is refused and the class keeps the one it had.
+                        bool cyclic = false;
+                        for (size_t probe = nav.m_index; probe != config::invalid_id; probe = m_confighost.m_containers.at(probe).id_parent_inherited)
+                        {
+                            if (probe == replaced.id)
+                            {
+                                cyclic = true;
+                                break;
+                            }
+                        }
+                        if (!cyclic)
+                        {
+                            replaced.id_parent_inherited = nav.m_index;
+                        }
                     }
 
                     // Return found container as confignav
